@@ -229,6 +229,8 @@ class Interp:
             if z3.is_seq(v):
                 return z3.Length(v) > 0
             raise Unsupported('truthiness of sort %s' % s)
+        if isinstance(v, Obj) and v.cls in ('pyany', 'pydict'):
+            return self.ctx.fresh('nondet', BoolS)
         if isinstance(v, Obj):
             return UF('truthy', ObjS, BoolS)(v.expr)
         if isinstance(v, SymOpt):
@@ -259,6 +261,10 @@ class Interp:
             return self.ctx.fresh('nondet', BoolS)
         if isinstance(v, SymOpt):
             return z3.Not(v.is_some)
+        if isinstance(v, Obj) and v.cls == 'pydict':
+            return False
+        if isinstance(v, Obj) and v.cls == 'pyany':
+            return self.ctx.fresh('nondet', BoolS)
         if isinstance(v, Obj):
             return UF('is_none', ObjS, BoolS)(v.expr)
         return False
@@ -270,6 +276,8 @@ class Interp:
                 raise Unsupported('read of loop-havocked local %s' % x.name)
         if isinstance(a, Untracked) or isinstance(b, Untracked):
             return Untracked()
+        if self.is_pyany(a) or self.is_pyany(b):
+            return self.ctx.fresh('nondet', BoolS)
         if a is None or b is None:
             other = b if a is None else a
             r = self.is_none(other)
@@ -315,6 +323,23 @@ class Interp:
         elif zb.sort() == BoolS and za.sort() in (IntS, RealS):
             zb = to_z3(z3.If(zb, 1, 0), za.sort())
         return za, zb
+
+    OPAQUE_ERRORS = ['TypeError', 'AttributeError', 'KeyError', 'IndexError', 'ValueError']
+
+    def is_pyany(self, v):
+        return isinstance(v, Obj) and v.cls == 'pyany'
+
+    def is_pydict(self, v):
+        return isinstance(v, Obj) and v.cls == 'pydict'
+
+    def pyany_op(self, label, node=None, classes=None):
+        """An operation on a value of unknown dynamic type: may raise any of the operator/lookup errors, or
+        yields another value of unknown type (used for raises-clauses; sound over-approximation)."""
+        classes = classes or self.OPAQUE_ERRORS
+        k = self.ctx.choose(len(classes) + 1, 'pyany.%s' % label)
+        if k:
+            raise PyRaise(classes[k - 1], (), where='line %s' % getattr(node, 'lineno', '?'))
+        return Obj(self.ctx.fresh('any', ObjS), 'pyany')
 
     def neg(self, r):
         if isinstance(r, Untracked):
@@ -503,8 +528,10 @@ class Interp:
             if not isinstance(k, str):
                 raise Unsupported('record field must be constant')
             self.map_store(o.m, o.key, k, v)
-        elif isinstance(o, Untracked):
+        elif isinstance(o, Untracked) or self.is_pydict(o):
             pass   # write into abstracted (untracked) state
+        elif self.is_pyany(o):
+            self.pyany_op('setitem', node)
         else:
             raise Unsupported('subscript store on %r' % (o,))
 
@@ -963,6 +990,8 @@ class Interp:
             return UF('fmt_float[%s]' % key, RealS, StrS)(x)
         if isinstance(x, PyRaise):
             return UF('exc_message', StrS, StrS)(z3.StringVal(x.cls))
+        if isinstance(x, Obj) and x.cls in ('pyany', 'pydict'):
+            return self.ctx.fresh('str_of_any', StrS)
         if isinstance(x, Obj):
             return UF('str_of_obj', ObjS, StrS)(x.expr)
         raise Unsupported('str() of %r' % (x,))
@@ -1014,6 +1043,8 @@ class Interp:
                 raise Unsupported('read of loop-havocked local %s' % x.name)
         if isinstance(a, Untracked) or isinstance(b, Untracked):
             return Untracked()
+        if self.is_pyany(a) or self.is_pyany(b) or self.is_pydict(a) or self.is_pydict(b):
+            return self.pyany_op('binop', node, ['TypeError', 'ZeroDivisionError', 'OverflowError', 'ValueError'])
         conc = (int, float, str, bool, tuple)
         if isinstance(a, conc) and isinstance(b, conc):
             try:
@@ -1106,6 +1137,11 @@ class Interp:
                 raise Unsupported('read of loop-havocked local %s' % x.name)
         if isinstance(a, Untracked) or isinstance(b, Untracked):
             return Untracked()
+        if (self.is_pyany(a) or self.is_pyany(b)) and not isinstance(op, (ast.Is, ast.IsNot, ast.Eq, ast.NotEq)):
+            if isinstance(op, (ast.In, ast.NotIn)) and self.is_pydict(b):
+                return self.ctx.fresh('nondet', BoolS)
+            self.pyany_op('compare', node, ['TypeError'])
+            return self.ctx.fresh('nondet', BoolS)
         if isinstance(op, ast.Is):
             if b is None or a is None:
                 return self.is_none(a if b is None else b)
@@ -1184,6 +1220,11 @@ class Interp:
             return z3.IsMember(to_z3(item, container.ksort), container.dom)
         if isinstance(container, Untracked) or isinstance(item, Untracked):
             return Untracked()
+        if self.is_pydict(container):
+            return self.ctx.fresh('nondet', BoolS)
+        if self.is_pyany(container):
+            self.pyany_op('contains', node, ['TypeError'])
+            return self.ctx.fresh('nondet', BoolS)
         if isinstance(container, MapEntry):
             m = container.m
             if isinstance(item, str):
@@ -1214,6 +1255,8 @@ class Interp:
                     return ('boundmethod', o, cls, methods[attr])
             return ('boundattr', o, attr)
         if isinstance(o, Obj):
+            if o.cls in ('pyany', 'pydict'):
+                return ('boundattr', o, attr)
             if o.cls is not None:
                 cls = self.find_class(o.cls)
                 if cls is not None:
@@ -1325,6 +1368,10 @@ class Interp:
             return o.elem(z3.simplify(idx))
         if isinstance(o, Untracked) or isinstance(k, Untracked):
             return Untracked()
+        if self.is_pydict(o):
+            return self.pyany_op('dict[]', node, ['KeyError'])
+        if self.is_pyany(o):
+            return self.pyany_op('getitem', node)
         if isinstance(o, SymMap):
             zk = self.map_key(o, k)
             if not o.default:
@@ -1376,6 +1423,8 @@ class Interp:
         g = e.generators[0]
         it = self.eval(g.iter, fr)
         if isinstance(it, Untracked):
+            return Untracked()
+        if (fr.fi.qualname, fr.loop_ordinals[id(e)]) in self.spec.abstract_comprehensions:
             return Untracked()
         if isinstance(it, MapItems) and it.mode == 'items' and not g.ifs and isinstance(g.target, ast.Tuple) \
                 and len(g.target.elts) == 2 and all(isinstance(t, ast.Name) for t in g.target.elts) \
@@ -1555,6 +1604,8 @@ class Interp:
             return f.fn(self, args, kwargs, node)
         if isinstance(f, Untracked):
             return Untracked()
+        if self.is_pyany(f):
+            return self.pyany_op('call', node, ANY_CALL_ERRORS)
         if isinstance(f, Closure):
             q = f.fi.qualname
             if q in self.spec.models:
@@ -1625,6 +1676,14 @@ class Interp:
             raise Unsupported('read of loop-havocked local %s' % o.name)
         if isinstance(o, Untracked):
             return None if attr in MUTATORS else Untracked()
+        if self.is_pydict(o):
+            if attr == 'get':
+                return Obj(self.ctx.fresh('any', ObjS), 'pyany')
+            if attr in ('setdefault', 'update', 'pop', 'clear'):
+                return Obj(self.ctx.fresh('any', ObjS), 'pyany') if attr != 'update' else None
+            raise Unsupported('dict method .%s on an abstract dict' % attr)
+        if self.is_pyany(o):
+            return self.pyany_op('method.' + attr, node)
         if isinstance(o, SymMap):
             if attr in ('items', 'values', 'keys') and not args:
                 return MapItems(o, attr)
@@ -1722,6 +1781,8 @@ class Interp:
 
 
 _MISSING = object()
+ANY_CALL_ERRORS = ['TypeError', 'AttributeError', 'KeyError', 'IndexError', 'ValueError', 'ZeroDivisionError', 'StopIteration',
+                   'RuntimeError', 're.error', 'OverflowError', 'ExpressionError', 'Exception']
 
 STR_METHODS_CONCRETE = {'lower', 'upper', 'strip', 'lstrip', 'rstrip', 'startswith', 'endswith',
                         'replace', 'title', 'split', 'count', 'find', 'join', 'isdigit', 'casefold'}
@@ -2000,6 +2061,19 @@ def _b_max(I, args, kwargs, node):
     raise Unsupported('max')
 
 
+def _b_type(I, args, kwargs, node):
+    (v,) = args
+    if isinstance(v, PyRaise):
+        return Rec('type', {'__name__': v.cls.split('.')[-1]})
+    if isinstance(v, Obj):
+        return Rec('type', {'__name__': UF('type.__name__', ObjS, StrS)(v.expr)})
+    if isinstance(v, (bool, int, float, str, list, dict, tuple)):
+        return Rec('type', {'__name__': type(v).__name__})
+    if is_sym(v):
+        return Rec('type', {'__name__': {StrS: 'str', IntS: 'int', RealS: 'float', BoolS: 'bool'}.get(v.sort(), 'object')})
+    raise Unsupported('type(%r)' % (v,))
+
+
 EXTERNALS = {'collections.defaultdict': 'defaultdict'}
 
 BUILTINS = {
@@ -2007,5 +2081,5 @@ BUILTINS = {
     'print': _b_print, 'isinstance': _b_isinstance, 'str': _b_str, 'tuple': _b_tuple,
     'enumerate': _b_enumerate, 'zip': _b_zip, 'range': _b_range, 'sum': _b_sum, 'sorted': _b_sorted,
     'float': _b_float, 'int': _b_int, 'max': _b_max, 'min': _b_max, 'round': _b_round,
-    'defaultdict': _b_defaultdict,
+    'defaultdict': _b_defaultdict, 'type': _b_type,
 }
